@@ -80,7 +80,7 @@ fn gen_req(rng: &mut Rng, pre: bool) -> Req {
 fn mutate(rng: &mut Rng, r: &Req) -> (&'static str, Req, Req) {
     let mut s = r.clone(); let mut f = r.clone();
     let allow: &[&str] = if r.pre { &P_ENV } else { &C_ENV };
-    let name = match rng.below(20) {
+    let name = match rng.below(22) {
         0 => { s.digest = hexdigest(rng); "digest" }
         1 => { s.plusplus = !s.plusplus; "plusplus" }
         2 => { s.lang = rng.below(14) as usize; "language" }
@@ -109,6 +109,12 @@ fn mutate(rng: &mut Rng, r: &Req) -> (&'static str, Req, Req) {
         17 | 18 => { // the same bytes count, one byte different; for an input file: rewritten in place with its old modification time
             if s.pp.is_empty() { s.pp.push(b'a'); f.pp.push(b'b'); } else { let i = rng.below(s.pp.len() as u64) as usize; s.pp[i] = if s.pp[i] == b'q' { b'r' } else { b'q' }; }
             if r.pre { s.keep_mtime = true; "input_same_size_same_mtime" } else { "payload_same_size" } }
+        19 | 20 => { // a search-path variable: an empty element (leading, trailing or doubled ':') means the current directory to the compiler
+            let var = rng.pick(allow).as_bytes().to_vec(); let base = b"/x/inc".to_vec();
+            f.env.retain(|(k, _)| k != &var); f.env.push((var.clone(), base.clone())); s = f.clone();
+            let v2: Vec<u8> = match rng.below(3) { 0 => [b":".as_ref(), &base].concat(), 1 => [&base[..], b":"].concat(), _ => [&base[..], b"::/y"].concat() };
+            if v2.ends_with(b"::/y") { f.env.last_mut().unwrap().1 = [&base[..], b":/y"].concat(); }
+            s.env.last_mut().unwrap().1 = v2; "env_path_list_empty_element" }
         _ => "identical",
     };
     (name, f, s)
